@@ -1275,6 +1275,14 @@ def gen_C16(rng, tier):
         h = H(rng, desc, bspec=bspec(rng), snap=True)
         maybe_tables(h, rng, prob=0.4)
         es = [h.elem() for _ in range(3)]
+
+        def sc():
+            # scalars of coefficient operations are fresh, error-free elements: an element that carries an error is
+            # ignored or stored by these operations without the polynomial noticing (findings PF-18a/b/c), and a
+            # stored erroneous coefficient object then refuses all later arithmetic at its position
+            r_ = h.elem()
+            es.append(r_)
+            return r_
         ps = [h.upoly(deg=rng.choice([0, 1, 2, 4])) for _ in range(3)]
         qs = [h.bpoly(nterms=rng.choice([0, 1, 2, 3]), box=3) for _ in range(3)]
         ids = []
@@ -1284,7 +1292,7 @@ def gen_C16(rng, tier):
             if pat < 0.3:
                 # an element handed to a polynomial (also a zero one, below the leading degree), then
                 # the polynomial and the element are modified in place
-                z = rng.choice([zero, zero, one, rng.choice(es)])
+                z = rng.choice([zero, zero, one, h.elem()])          # error-free (see sc() above)
                 zc = h.newe(); h.ops.append("%s=copy %s" % (zc, z))
                 f = rng.choice(ps)
                 h.ops.append("%s %s %d %s" % (rng.choice(["setcoef", "setcoef", "inc", "dec"]), f, rng.randrange(0, 3), zc))
@@ -1292,7 +1300,7 @@ def gen_C16(rng, tier):
                 h.ops.append("add %s %s" % (zc, one))
                 h.ops.append("obs %s" % f)
                 g = rng.choice(qs)
-                zc2 = h.newe(); h.ops.append("%s=copy %s" % (zc2, rng.choice([one, rng.choice(es)])))
+                zc2 = h.newe(); h.ops.append("%s=copy %s" % (zc2, rng.choice([one, h.elem()])))
                 h.ops.append("%s %s %d:%d %s" % (rng.choice(["setcoef", "inc", "dec"]), g, rng.randrange(3), rng.randrange(3), zc2))
                 h.ops.append("add %s %s" % (g, rng.choice(qs)))
                 h.ops.append("add %s %s" % (zc2, one))
@@ -1311,10 +1319,10 @@ def gen_C16(rng, tier):
                 # constructors from element registers (repeated), then in-place changes on both sides
                 regs = [rng.choice(es) for _ in range(rng.randrange(1, 4))]
                 r = h.newu(); h.ops.append("%s=regs@0 %s" % (r, ",".join(regs))); ps.append(r)
-                h.ops.append("setscale %s %s" % (r, rng.choice(es)))
+                h.ops.append("setscale %s %s" % (r, sc()))
                 h.ops.append("add %s %s" % (regs[0], one))
                 rq = h.newb(); h.ops.append("%s=regs@0 %s" % (rq, "/".join("%d:%d:%s" % (i, rng.randrange(3), e) for i, e in enumerate(regs)))); qs.append(rq)
-                h.ops.append("setscale %s %s" % (rq, rng.choice(es)))
+                h.ops.append("setscale %s %s" % (rq, sc()))
                 h.ops.append("add %s %s" % (regs[-1], one))
         for _ in range(rng.randrange(8, 30)):
             k = rng.random()
@@ -1349,7 +1357,7 @@ def gen_C16(rng, tier):
                     r = rng.choice(ps + [h.newu()])
                     h.ops.append("%s=%s %s" % (r, rng.choice(["neg", "normalize", "copy", "lt"]), a)); ps.append(r)
                 elif kk < 0.48:
-                    r = h.newu(); h.ops.append("%s=scale %s %s" % (r, a, rng.choice(es))); ps.append(r)
+                    r = h.newu(); h.ops.append("%s=scale %s %s" % (r, a, sc())); ps.append(r)
                 elif kk < 0.54:
                     r = h.newu(); h.ops.append("%s=pow %s %d" % (r, a, rng.choice([0, 1, 2, 3]))); ps.append(r)
                 elif kk < 0.6:
@@ -1357,9 +1365,9 @@ def gen_C16(rng, tier):
                 elif kk < 0.75:
                     h.ops.append("%s %s %s" % (rng.choice(["add", "sub", "mult"]), a, b))
                 elif kk < 0.8:
-                    h.ops.append("setscale %s %s" % (a, rng.choice(es)))
+                    h.ops.append("setscale %s %s" % (a, sc()))
                 elif kk < 0.88:
-                    h.ops.append("%s %s %d %s" % (rng.choice(["setcoef", "inc", "dec"]), a, rng.randrange(6), rng.choice(es)))
+                    h.ops.append("%s %s %d %s" % (rng.choice(["setcoef", "inc", "dec"]), a, rng.randrange(6), sc()))
                 elif kk < 0.92:
                     h.ops.append("setneg %s" % a)
                 elif kk < 0.95:
@@ -1383,7 +1391,7 @@ def gen_C16(rng, tier):
                     r = rng.choice(qs + [h.newb()])
                     h.ops.append("%s=%s %s" % (r, rng.choice(["neg", "normalize", "copy", "lt"]), a)); qs.append(r)
                 elif kk < 0.48:
-                    r = h.newb(); h.ops.append("%s=scale %s %s" % (r, a, rng.choice(es))); qs.append(r)
+                    r = h.newb(); h.ops.append("%s=scale %s %s" % (r, a, sc())); qs.append(r)
                 elif kk < 0.53:
                     r = h.newb(); h.ops.append("%s=pow %s %d" % (r, a, rng.choice([0, 1, 2]))); qs.append(r)
                 elif kk < 0.6:
@@ -1391,9 +1399,9 @@ def gen_C16(rng, tier):
                 elif kk < 0.75:
                     h.ops.append("%s %s %s" % (rng.choice(["add", "sub", "mult"]), a, b))
                 elif kk < 0.8:
-                    h.ops.append("setscale %s %s" % (a, rng.choice(es)))
+                    h.ops.append("setscale %s %s" % (a, sc()))
                 elif kk < 0.9:
-                    h.ops.append("%s %s %d:%d %s" % (rng.choice(["setcoef", "inc", "dec"]), a, rng.randrange(3), rng.randrange(3), rng.choice(es)))
+                    h.ops.append("%s %s %d:%d %s" % (rng.choice(["setcoef", "inc", "dec"]), a, rng.randrange(3), rng.randrange(3), sc()))
                 else:
                     one = h.elem("1"); es.append(one)
                     g = h.bpoly(nterms=1, box=2); h.ops.append("inc %s 2:1 %s" % (g, one)); qs.append(g)
@@ -1424,7 +1432,7 @@ def gen_C16(rng, tier):
                         ds = [h.newb() for _ in range(3)]
                         h.ops.append("%s=gens %s" % (",".join(ds), a))
                         # the returned generators are mutated afterwards: the ideal must not change
-                        h.ops.append("setscale %s %s" % (ds[0], rng.choice(es)))
+                        h.ops.append("setscale %s %s" % (ds[0], sc()))
                         h.ops.append("obs %s" % a)
             if desc_card(desc) <= 300 and rng.random() < 0.04:
                 h.ops.append("escr@0")      # Elements(): the caller overwrites what it was given
